@@ -5,7 +5,7 @@
 # LICENSE file in the root directory of this source tree.
 import inspect
 import logging
-import random
+import random as _random
 import sys
 from abc import ABCMeta, abstractmethod
 from contextlib import contextmanager
@@ -19,6 +19,11 @@ from monkeytype.typing import get_type
 from monkeytype.util import get_func_fqname
 
 logger = logging.getLogger(__name__)
+
+# Sampling draws from a generator of our own. The module-level functions of
+# the random module share one generator with the traced program, and the
+# random numbers a program gets must not depend on whether it is being traced.
+random = _random.Random()
 
 
 class CallTrace:
